@@ -243,7 +243,7 @@ func runC09(c *core.Ctx) error {
 	}); err != nil {
 		return err
 	}
-	c09EnumKeys(c, c.Rand.Fork(), c.Pick(150, 20000))
+	c09EnumKeys(c, c.Rand.Fork(), c.Pick(150, 20000), "C09")
 	nSchemas := c.Pick(5000, 250000)
 	cfg := core.DefaultSchemaCfg
 	var batch []c09Case
@@ -346,7 +346,7 @@ func hasRepeatedKey(v core.Val) bool {
 // is a member name, at representation level the member's representation string).  Every way of supplying the key
 // (AssembleEntry, key assembler, AssignNode of a whole map, dag-json, dag-cbor) must accept exactly the valid keys of
 // the level; accepted maps read back with the keys of the level asked for.
-func c09EnumKeys(c *core.Ctx, r *core.Rand, n int) {
+func c09EnumKeys(c *core.Ctx, r *core.Rand, n int, pfx string) {
 	names := []string{"Yes", "No", "Maybe", "a", "b", "Red"}
 	reprs := []string{"y", "n", "m", "A", "B", "r", "Yes", "a"}
 	for i := 0; i < n; i++ {
@@ -466,12 +466,12 @@ func c09EnumKeys(c *core.Ctx, r *core.Rand, n int) {
 				c.Count(caseID, true)
 				c.Dist("enum-keyed-map:" + lvl + ":" + route)
 				if panicked {
-					c.Fail("C09/panic", core.Replay{Kind: "oracle", Case: caseID, Impl: fmt.Sprint(pv)})
+					c.Fail(pfx+"/panic", core.Replay{Kind: "oracle", Case: caseID, Impl: fmt.Sprint(pv)})
 					continue
 				}
 				got := err == nil
 				if got != want {
-					c.Fail("C09/enum-keyed-map-acceptance", core.Replay{Kind: "oracle", Case: caseID, Impl: fmt.Sprintf("accepted=%v (%v)", got, err), Expected: fmt.Sprintf("accepted=%v", want),
+					c.Fail(pfx+"/enum-keyed-map-acceptance", core.Replay{Kind: "oracle", Case: caseID, Impl: fmt.Sprintf("accepted=%v (%v)", got, err), Expected: fmt.Sprintf("accepted=%v", want),
 						Detail: "a typed map keyed by an enum accepts exactly the members' names (type level) / representation strings (representation level)"})
 					continue
 				}
@@ -486,7 +486,39 @@ func c09EnumKeys(c *core.Ctx, r *core.Rand, n int) {
 					}
 					gt, gr := termOfOrErrSafe(tn, nil), termOfOrErrSafe(tn.Representation(), nil)
 					if gt != wantT.Term() || gr != wantR.Term() {
-						c.Fail("C09/enum-keyed-map-content", core.Replay{Kind: "oracle", Case: caseID, Impl: gt + " | " + gr, Expected: wantT.Term() + " | " + wantR.Term()})
+						c.Fail(pfx+"/enum-keyed-map-content", core.Replay{Kind: "oracle", Case: caseID, Impl: gt + " | " + gr, Expected: wantT.Term() + " | " + wantR.Term()})
+					}
+					// reading by key: every lookup form agrees with iteration at each level, and a text that is not a key OF
+					// THAT LEVEL (the name of a renamed member at representation level, its representation at type level) is not found
+					for vi, view := range []datamodel.Node{tn, tn.Representation()} {
+						if p := consistency(view, ""); p != "" {
+							c.Fail(pfx+"/enum-keyed-map-lookup", core.Replay{Kind: "oracle", Case: caseID, Impl: p, Expected: "lookups by key agree with iteration", Detail: []string{"type-level view", "representation view"}[vi]})
+						}
+						for _, m := range members {
+							foreign := reprOf[m]
+							if vi == 1 {
+								foreign = m
+							}
+							isKey := false
+							for _, m2 := range members {
+								if vi == 0 && m2 == foreign || vi == 1 && reprOf[m2] == foreign {
+									isKey = true
+								}
+							}
+							if isKey {
+								continue
+							}
+							var found bool
+							_, panicked, pv := core.Catch(func() error {
+								x, err := view.LookupByString(foreign)
+								found = err == nil && x != nil
+								return nil
+							})
+							if panicked || found {
+								c.Fail(pfx+"/enum-keyed-map-lookup", core.Replay{Kind: "oracle", Case: caseID, Impl: fmt.Sprintf("LookupByString(%q) found=%v panic=%v", foreign, found, pv), Expected: "not found",
+									Detail: []string{"type-level view", "representation view"}[vi] + ": the text is the other level's spelling of a member"})
+							}
+						}
 					}
 				}
 			}
